@@ -260,7 +260,13 @@ func (ex *Exec) applyContract(st *State, c *Contract, args []*Val, sig *types.Si
 	for _, e := range c.Ensures {
 		st.assume(env.evalBool(e))
 	}
-	if c.Kind != "func" && len(c.Ensures) > 0 {
+	neverReturns := false
+	for _, e := range c.Ensures {
+		if id, ok := e.E.(*EIdent); ok && id.Name == "false" {
+			neverReturns = true
+		}
+	}
+	if c.Kind != "func" && len(c.Ensures) > 0 && !neverReturns {
 		// relative vacuity: an assumed contract must not make a feasible path infeasible
 		name := fmt.Sprintf("%s#cover:after:%s@%s", shortFn(ex.topKey), calleeShort, site)
 		ex.oblCount[name]++
